@@ -515,7 +515,7 @@ Definition unknown_word (ls : lexstate) (w r1 : list Z) (ln : Z) : bool :=
 Lemma unknown_word_step f n ls c w' r1 ln h acc :
   unknown_word ls (zen2han c :: w') r1 ln = true ->
   LOOP f (S n) ls (c :: w' ++ r1) ln h acc
-  = LOOP f n (read_error_cmd ls (fst (skip_space r1 ln)) (snd (skip_space r1 ln)) (zen2han c :: w'))
+  = LOOP f n (read_error_cmd ls (fst (skip_space r1 ln)) ln (zen2han c :: w'))
          (fst (skip_space r1 ln)) (snd (skip_space r1 ln)) h acc.
 Proof.
   unfold unknown_word. intros H.
